@@ -20,6 +20,7 @@ from __future__ import annotations
 
 import asyncio
 import enum
+from functools import partial
 import itertools
 import sys
 import types
@@ -235,6 +236,11 @@ def _make_action(cbid0, group, is_async, free):
                 except Exception as e:
                     Hh.log.append(("R", cbid, occ, i, "exc", type(e).__name__))
                     raise
+                if isawaitable(r):
+                    # plain callback of a machine that runs on the async engine: the event is queued, but the call hands
+                    # back a coroutine a plain function cannot await (known finding K7, about the return value only)
+                    r.close()
+                    r = "<coroutine>"
                 Hh.log.append(("R", cbid, occ, i, "ok", r))
             Hh.log.append(("E", cbid, occ))
             return Hh.rets[cbid]
@@ -343,6 +349,7 @@ def render(spec, *, cname=None, register=True):
     guards = spec.get("guards", [])
 
     funcs = {}  # cbid -> function object (for func/deco/ method placement)
+    ext_objs = {}
     prov_ns = {}  # provider -> namespace dict
     same = spec.get("same_class", {})
     for c in cbs:
@@ -350,12 +357,21 @@ def render(spec, *, cname=None, register=True):
         if cid in funcs or c["prov"] in same:
             continue
         prov = c["prov"]
-        free = c["attach"] == "func"
+        free = c["attach"] in ("func", "partial")
         fn = make_action(cid, c["group"], c.get("async", False), free)
         qual = f"{cname}_{prov}.{c['name']}" if not free else f"{cname}_free_{c['name']}"
         _name(fn, c["name"], qual)
+        if c["attach"] == "partial":
+            # functools.partial of a free function (needs an explicit __name__ to be attachable at all)
+            fn = partial(fn)
+            fn.__name__ = c["name"]
+        elif c["attach"] == "bound":
+            # bound method of an object that is neither machine, model nor listener, passed as a callable
+            ext = ext_objs.setdefault("ext", type(f"{cname}_ext", (), {"__module__": __name__})())
+            setattr(type(ext), c["name"], fn)
+            fn = getattr(ext, c["name"])
         funcs[cid] = fn
-        if not free:
+        if not free and c["attach"] != "bound":
             prov_ns.setdefault(prov, {})[c["name"]] = fn
     for g in guards:
         if g["prov"] in same:
@@ -368,7 +384,7 @@ def render(spec, *, cname=None, register=True):
     def inline(group, scope_kind, key):
         out = []
         for c in cbs:
-            if c["group"] != group or c["attach"] not in ("name", "func"):
+            if c["group"] != group or c["attach"] not in ("name", "func", "partial", "bound"):
                 continue
             sc = c["scope"]
             if sc[0] != scope_kind:
@@ -412,6 +428,8 @@ def render(spec, *, cname=None, register=True):
     plan = style.get("trans") or [{"k": [k], "how": "kwstr"} for k in range(len(spec["trans"]))]
     tlists = [None] * len(spec["trans"])
     per_event = {}  # event -> [(TransitionList, how)] for class-attribute declared events
+    placeholders = {}
+    attr_events = {e for d in plan if d["how"] in ("attr", "event_obj", "any") for k in d["k"] for e in spec["trans"][k]["events"]}
 
     def tkw(k, with_event=None):
         t = spec["trans"][k]
@@ -422,6 +440,18 @@ def render(spec, *, cname=None, register=True):
             kw["event"] = list(t["events"])
         elif with_event == "kw_eventobj":
             kw["event"] = [Event(e) for e in t["events"]] if len(t["events"]) > 1 else Event(t["events"][0])
+        elif with_event == "kw_placeholder":
+            # events declared up front as id-less Event() class attributes (they get their id from the attribute name)
+            evs = []
+            for e in t["events"]:
+                if e in attr_events:
+                    evs.append(e)  # this event is declared as a class attribute holding transitions in this plan
+                else:
+                    if e not in placeholders:
+                        placeholders[e] = Event(name=e) if len(placeholders) % 2 else Event()
+                        ns[e] = placeholders[e]
+                    evs.append(placeholders[e])
+            kw["event"] = evs if len(evs) > 1 else evs[0]
         if t.get("internal"):
             kw["internal"] = True
         for grp in ("cond", "unless"):
@@ -436,7 +466,7 @@ def render(spec, *, cname=None, register=True):
     for d in plan:
         ks, how = d["k"], d["how"]
         t = spec["trans"][ks[0]]
-        if how in ("kwstr", "kwlist", "kw_eventobj"):
+        if how in ("kwstr", "kwlist", "kw_eventobj", "kw_placeholder"):
             tl = states[t["src"]].to(states[t["dst"]], **tkw(ks[0], how))
         elif how == "from":
             tl = states[t["dst"]].from_(states[t["src"]], **tkw(ks[0], d.get("ev", "kwstr")))
@@ -609,7 +639,7 @@ class Interp:
         return dec(s["value"]) if "value" in s else s["id"]
 
     def attached(self, d):
-        return self.providers is None or d["prov"] in self.providers or d["prov"] in ("machine", "free")
+        return self.providers is None or d["prov"] in self.providers or d["prov"] in ("machine", "free", "ext")
 
     def group_cbs(self, group, k, event, state_i):
         """cbids applicable to transition k (or to state_i for enter/exit) triggered by `event`."""
@@ -867,7 +897,9 @@ class Interp:
                 if exp[0] == "ok":
                     if r[4] != "ok":
                         raise Mismatch("nested-send-raised", f"nested send of {ev!r} from {cbid} raised {r[5]} but should have returned {exp[1]!r}", self.pos)
-                    if not result_matches(exp[1], r[5]):
+                    if r[5] == "<coroutine>" and self.is_async and exp[1] is None:
+                        self.stats["k7_plain_sender_on_async_engine"] += 1
+                    elif not result_matches(exp[1], r[5]):
                         raise Mismatch("nested-result", f"nested send of {ev!r} from {cbid} returned {r[5]!r}, expected {exp[1]!r}", self.pos)
                     self.advance()
                     st["i"] += 1
